@@ -155,7 +155,10 @@ func TestShareChannelFullHang(t *testing.T) {
 			}
 		}
 		poll(&returned)
-		<-c.boards[2].IncomingValidatorPubKeyShares() // take one entry out: the blocked send completes
+		select {
+		case <-c.boards[2].IncomingValidatorPubKeyShares(): // take one entry out: the blocked send completes
+		default:
+		}
 		synctest.Wait()
 		poll(&returnedAfterDrain)
 		cancel()
